@@ -12,6 +12,7 @@ import (
 
 	"verifharness/internal/drive"
 	"verifharness/internal/fw"
+	"verifharness/internal/model"
 	"verifharness/internal/rng"
 	"verifharness/internal/spec"
 )
@@ -620,6 +621,9 @@ func runC14(c *fw.Ctx) {
 	c.Cases("panicking-callbacks", c.N(400, 100000), false, func(i int, r *rng.R) { c14Panicking(c, r) })
 	c.Cases("scratch-reuse", c.N(300, 50000), false, func(i int, r *rng.R) { c14Scratch(c, r) })
 	c.Cases("current-values", c.N(300, 50000), false, func(i int, r *rng.R) { c14Current(c, r) })
+	// histories: a tree goes through rounds of mutations (methods, nested in place, tree-form writes with padding, one
+	// container instance stored at several places); after every round every list and object of the tree shows all its views
+	historyCases(c, "history", 300, 30000, probeViews)
 	c.Cases("containers", c.N(2000, 1000000), false, func(i int, r *rng.R) {
 		// several elements of each kind interleaved, none of a kind, neighbours of look-alike kinds, empty
 		root := spec.List
@@ -1451,4 +1455,31 @@ func selfC14(s *fw.SelfCheck) {
 	x = &c14Run{c: c, desc: func() string { return "self" }}
 	x.sameSeq("t", []any{"a", "", ""}, want, nil)
 	s.Expect(x.bad, "sequence comparison misses a duplicate")
+}
+
+// probeViews: every container reachable from the root shows all its typed and untyped views (judged, as everywhere in
+// this monitor, against TypeOf / Get of the same container at that moment).
+func probeViews(p *prog, root *model.Node, round int) {
+	p.trace = append(p.trace, fmt.Sprintf("probe %d: all views of every container of the tree", round))
+	for _, n := range reachable(root) {
+		if n.Real == nil {
+			continue
+		}
+		x := &c14Run{c: p.c}
+		name := n.Name()
+		x.desc = func() string { return p.input() + "\nviews of " + name }
+		switch v := n.Real.(type) {
+		case at.List:
+			x.checkListViews(v, p.r)
+		case at.Object:
+			x.checkObjectViews(v)
+		}
+		if x.bad {
+			p.failed = true
+			return
+		}
+	}
+	if d := p.h.CheckAll(); d != "" {
+		p.failProbe("views-modify-container", "tree unchanged after the views were taken", d)
+	}
 }
